@@ -28,7 +28,7 @@ def scratch_copy(tag):
     sources (`git archive HEAD`: other work may be editing the working tree) plus the Lean build output (~300 MB; lake
     rebuilds in the copy whatever differs).  The
     translators of such a run rewrite lean/Midgard/Generated in the copy, never in the tree other work is building in."""
-    vc = Path(f"/tmp/vc-{tag.lower()}")
+    vc = Path(f"/tmp/vc-{tag.lower()}-{os.getpid()}")
     subprocess.run(["rm", "-rf", str(vc)]); vc.mkdir(parents=True)
     if os.environ.get("SEED_USE_HEAD"):
         subprocess.check_call(f"git -C {V} archive HEAD -- . ':!seeded' ':!evidence' | tar -x -C {vc}", shell=True)
@@ -43,14 +43,14 @@ def scratch_copy(tag):
 
 def run_check(prop, wt, tag, vc=None):
     vc = vc or V
-    env = {**os.environ, "MIDGARD_REPO": str(wt), "VERIF_EVIDENCE_DIR": f"/tmp/sr-evidence-{tag}"}
+    env = {**os.environ, "MIDGARD_REPO": str(wt), "VERIF_EVIDENCE_DIR": f"/tmp/sr-evidence-{tag}-{os.getpid()}"}
     p = subprocess.run([str(vc / "check"), prop], cwd=vc, capture_output=True, text=True, env=env)
     lines = [l for l in p.stdout.splitlines() if l.startswith(("VIOLATION", "  what", "KNOWN-FINDING", "TOOL-FAILURE"))]
     return p.returncode, lines
 
 
 def one_prop(prop):
-    wt = Path(f"/tmp/sr-{prop.lower()}")
+    wt = Path(f"/tmp/sr-{prop.lower()}-{os.getpid()}")
     subprocess.run(["git", "-C", "/repo", "worktree", "remove", "--force", str(wt)], capture_output=True)
     subprocess.check_call(["git", "-C", "/repo", "worktree", "add", "--detach", str(wt), "HEAD", "-q"])
     out = {}
@@ -103,7 +103,7 @@ def one_prop(prop):
             print(f"{prop}/{d.name}: {status} (exit {rc}{', failing input' if with_input else ', no failing input'})", flush=True)
     finally:
         subprocess.run(["git", "-C", "/repo", "worktree", "remove", "--force", str(wt)], capture_output=True)
-        subprocess.run(["rm", "-rf", f"/tmp/sr-evidence-{prop}", str(vc)])
+        subprocess.run(["rm", "-rf", f"/tmp/sr-evidence-{prop}-{os.getpid()}", str(vc)])
     return prop, out
 
 
